@@ -2,7 +2,8 @@
 # tools_verify_seed.sh <ID> [checks...]: confirm a seeded change myself (suite passes with it, demo fails with / passes without),
 # then run the given checks (default: the property's own quick check) against /repo with the patch applied, and undo it.
 ID=$1; shift
-CHECKS=${@:-$ID}
+PROP=${ID%b}            # second-round seeds are named <ID>b
+CHECKS=${@:-$PROP}
 WT=/tmp/wt/$ID; SD=/tmp/seed/$ID
 set -u
 cd $WT || exit 2
@@ -14,6 +15,14 @@ git apply -R $SD/patch.diff
 echo "== demo without the change (expect PASS)"; PYTHONPATH=$WT/src timeout 120 /venv/bin/python $SD/demo.py > /tmp/seed/$ID/demo_without.log 2>&1; echo "exit=$? $(tail -1 /tmp/seed/$ID/demo_without.log | cut -c1-200)"
 git apply $SD/patch.diff
 cd /verif
+if [ -n "${SEED_IN_WORKTREE:-}" ]; then
+  # run the checks against the worktree itself (patch applied there), leaving /repo untouched (it may be in use by a long run)
+  for c in $CHECKS; do
+    echo "== VERIF_REPO=$WT bin/check $c quick"
+    VERIF_REPO=$WT timeout 3000 bin/check $c quick > /tmp/seed/$ID/check_$c.log 2>&1; echo "exit=$?"; grep -E "^VIOLATION|^SUMMARY|^HARNESS|^INCONCLUSIVE" /tmp/seed/$ID/check_$c.log | head -6
+  done
+  exit 0
+fi
 git -C /repo apply $SD/patch.diff || { echo "PATCH DOES NOT APPLY to /repo"; exit 2; }
 for c in $CHECKS; do
   echo "== bin/check $c quick with the change applied to /repo"
